@@ -5,7 +5,7 @@ from .c01 import unfolding_generic_rank, _or, DELTA
 ROUNDOFF2 = 1e-26    # (relative roundoff)^2 allowance so that a replay in float64 never fails on rounding alone
 
 
-def so_tt_input(E, name, N, R, patterns, M=None, dtype='float64', sym_cores=None):
+def so_tt_input(E, name, N, R, patterns, M=None, dtype='float64', sym_cores=None, phase_idx=None):
     """TT object whose cores are sparse; cores listed in sym_cores (default: all) carry symbolic positive magnitudes,
     the others fixed magnitudes from {1,2,3}. patterns[k] = list of index tuples of core k"""
     cores = []
@@ -13,7 +13,7 @@ def so_tt_input(E, name, N, R, patterns, M=None, dtype='float64', sym_cores=None
         shp = [R[k], N[k], R[k + 1]] if M is None else [R[k], M[k], N[k], R[k + 1]]
         pat = [tuple(p) for p in patterns[k]]
         if sym_cores is None or k in sym_cores:
-            cores.append(E.pos_tensor('%s%d_' % (name, k), shp, pat, dtype))
+            cores.append(E.pos_tensor('%s%d_' % (name, k), shp, pat, dtype, phase_idx=(phase_idx[k] if phase_idx else None)))
         else:
             c = E.tn.zeros(shp, dtype=E.dt(dtype))
             for j, p in enumerate(pat):
@@ -57,7 +57,7 @@ def tt_round(E, s):
         from .lib import tt_input
         x, xc = tt_input(E, 'x', N, R, s.get('dtype', 'float64'), M)       # arbitrary sign-free entries (rank-1 profiles: every QR/SVD input is a row or a column)
     else:
-        x, xc = so_tt_input(E, 'x', N, R, s['patterns'], M, dtype=s.get('dtype', 'float64'), sym_cores=s.get('sym_cores'))
+        x, xc = so_tt_input(E, 'x', N, R, s['patterns'], M, dtype=s.get('dtype', 'float64'), sym_cores=s.get('sym_cores'), phase_idx=s.get('phase_idx'))
     if s.get('plus_zero'):
         # the same tensor stored with inflated ranks: a structurally zero rank block in front of / behind the data (sum with the zero tensor)
         z = E.tt.zeros(list(N)) if M is None else E.tt.zeros([(m, n) for m, n in zip(M, N)])
